@@ -30,6 +30,11 @@ type c05Stream struct {
 	End    string   `json:"end,omitempty"`   // "", close, reset
 	LHold  int      `json:"lhold,omitempty"` // local hold time of the target peer
 	SpinCb string   `json:"spin_cb,omitempty"`
+	// PrevHolds: earlier sessions of the target peer on the same direction (outbound: on the
+	// same FSM object), each with that remote hold time, ended by the remote's close
+	PrevHolds []uint16 `json:"prev_holds,omitempty"`
+	// RHold0: the remote's OPEN of the session under test proposes hold time 0
+	RHold0 bool `json:"rhold0,omitempty"`
 }
 
 func c05StreamProp(t *testing.T, r *hx.Run) func(c c05Stream) hx.Verdict {
@@ -69,7 +74,11 @@ func c05StreamProp(t *testing.T, r *hx.Run) func(c c05Stream) hx.Verdict {
 				}
 			}()
 			if c.Out {
-				w.Net.SetPlans(a.RemoteAddr(), memnet.DialPlan{Kind: memnet.Accept}, memnet.DialPlan{Kind: memnet.Refuse})
+				plans := []memnet.DialPlan{}
+				for i := 0; i <= len(c.PrevHolds); i++ {
+					plans = append(plans, memnet.DialPlan{Kind: memnet.Accept})
+				}
+				w.Net.SetPlans(a.RemoteAddr(), append(plans, memnet.DialPlan{Kind: memnet.Refuse})...)
 			}
 			if err := w.AddPeer(a); err != nil {
 				fail("setup", "%v", err)
@@ -82,18 +91,42 @@ func c05StreamProp(t *testing.T, r *hx.Run) func(c c05Stream) hx.Verdict {
 			w.Serve()
 			w.Settle()
 			var conn *memnet.Conn
-			if c.Out {
-				conn = w.DialedConn(a.Remote, 0)
-			} else {
-				conn = w.Inbound(a.Remote, "10.0.0.1")
+			getConn := func(k int) *memnet.Conn {
+				if !c.Out {
+					cn := w.Inbound(a.Remote, "10.0.0.1")
+					w.Settle()
+					return cn
+				}
+				if k > 0 {
+					if !w.Net.WaitDials(k+1, 10*time.Minute) {
+						return nil
+					}
+					w.Settle()
+				}
+				return w.DialedConn(a.Remote, k)
+			}
+			for k, ph := range c.PrevHolds {
+				pc := getConn(k)
+				if pc == nil {
+					fail("setup", "no connection for earlier session %d", k)
+					w.Finish()
+					return
+				}
+				world.Handshake(w, a, pc, ph, 0x0a000002)
+				pc.RemoteClose()
 				w.Settle()
 			}
+			conn = getConn(len(c.PrevHolds))
 			if conn == nil {
 				fail("setup", "no connection")
 				w.Finish()
 				return
 			}
-			for _, m := range handshakeBytes(a, conn, c.State, 90) {
+			rhold := uint16(90)
+			if c.RHold0 {
+				rhold = 0
+			}
+			for _, m := range handshakeBytes(a, conn, c.State, rhold) {
 				conn.RemoteSend(m, nil)
 				w.Settle()
 			}
@@ -217,6 +250,12 @@ func genC05Stream(rt *rapid.T) c05Stream {
 	if rapid.IntRange(0, 6).Draw(rt, "spin") == 0 {
 		c.SpinCb = pick(rt, "spincb", "open", "est", "upd", "close")
 	}
+	if rapid.IntRange(0, 3).Draw(rt, "withprev") == 0 {
+		for i, n := 0, rapid.IntRange(1, 2).Draw(rt, "nprev"); i < n; i++ {
+			c.PrevHolds = append(c.PrevHolds, pick[uint16](rt, "prevhold", 90, 3, 0))
+		}
+	}
+	c.RHold0 = rapid.IntRange(0, 3).Draw(rt, "rhold0") == 0
 	return c
 }
 
